@@ -123,6 +123,7 @@ type Exec struct {
 	retN2    int
 	presSorts map[string]string
 	retN3      int
+	returnsSeen int
 	epochComps map[int]map[string]string
 	epochParents map[int][]epochParent // a join of different havoc histories: which epoch each joined path was in
 	noStoreHit map[string]bool
